@@ -3,10 +3,9 @@ CONSTANTS Tables = {"a", "b"}
           GroupOf <- Groups1
           MaxFile = 2
           Sizes = {1, 2}
-          MaxItems = 2
-          MaxBatch = 2
-          MaxCrashes = 1
+          MaxItems = 12
+          MaxBatch = 3
+          MaxCrashes = 2
           TailBeyondSync = TRUE
-INVARIANTS FailsOnlyKnown Aligned ReadableCorrect Durable Monotone IndexOK
-VIEW View
+CONSTRAINT Emit
 CHECK_DEADLOCK FALSE
